@@ -151,10 +151,10 @@ def run_recorded(curve, s, kw, cap=1300):
 
 def make_trace(curve, s, kw, out, probes):
     """events for Bisect_Trace: the bisection runs on one non-Line segment"""
-    s_tol = kw.get('s_tol', sppath.ILENGTH_S_TOL)
+    s_tol = kw.get('s_tol', getattr(sppath, 'ILENGTH_S_TOL', 1e-12))
     segs = list(curve) if isinstance(curve, sp.Path) else [curve]
     if isinstance(curve, sp.Path):
-        lens = [seg.length(error=kw.get('error', sppath.ILENGTH_ERROR), min_depth=kw.get('min_depth', sppath.ILENGTH_MIN_DEPTH)) for seg in segs]
+        lens = [seg.length(error=kw.get('error', getattr(sppath, 'ILENGTH_ERROR', 1e-12)), min_depth=kw.get('min_depth', getattr(sppath, 'ILENGTH_MIN_DEPTH', 5))) for seg in segs]
         lsum = 0
         k = None
         for i, ln in enumerate(lens):
@@ -200,9 +200,9 @@ def run(ck):
     traces, tmeta = [], []
     allshapes = shapes() + path_shapes()
     configs = [(True, allshapes, scales)]
-    if sppath._quad_available:
+    if getattr(sppath, '_quad_available', None):
         configs.append((False, [x for x in allshapes if x[0] in ('cubic', 'cubic-S', 'quad')] if quick else [x for x in allshapes if 'arc' not in x[0] and x[0] != 'path-mixed'] + [x for x in allshapes if x[0] == 'path-mixed'][:1], [1.0] if quick else [1e-3, 1.0]))
-    old = sppath._quad_available
+    old = getattr(sppath, '_quad_available', None)     # (the module's scipy switch; None: no such switch any more - one configuration only)
     try:
         for scipy_on, shp, scs in configs:
             sppath._quad_available = scipy_on and old
